@@ -290,6 +290,12 @@ PROPERTIES["C12"] = {
            "thorough": "topics of length 0..2, messages of length 0..2"},
           params={"quick": {"ops": 3, "topic_len": 1, "msg_len": 2, "via_socket": True}, "thorough": {"ops": 3, "topic_len": 2, "msg_len": 2, "via_socket": True}},
           budget={"quick": 500, "thorough": 3300}, required_covers=["c12.match", "c12.no-match"]),
+        M("c12_filtered_enqueue", "d_c12", "filtered_enqueue",
+          {"quick": "PipeMessageSender::FilteredAnonymous {try_send_sync, send (coroutine), try_send_batch} over the real AnonymousIngressEngine / ReadyPipeQueue (capacity 1) and SubscriptionTrie: all histories of 3 operations from {subscribe t, unsubscribe t, arrival}, topics of 0..1 symbolic bytes, an arrival being one message through try_send_sync or send or a batch of two through try_send_batch, messages of 1..2 frames with a first frame of 0..1 symbolic bytes; after every arrival the queue is read out through recv_multipart",
+           "thorough": "topics of 0..2 bytes, first frames of 0..2 bytes"},
+          params={"quick": {"ops": 3, "topic_len": 1, "msg_len": 1}, "thorough": {"ops": 3, "topic_len": 2, "msg_len": 2}},
+          budget={"quick": 600, "thorough": 3000},
+          required_covers=["c12.filter.arrival-after-unsubscribe", "c12.filter.single-delivered", "c12.filter.single-dropped", "c12.filter.batch-mixed", "c12.filter.batch-backpressured"]),
         M("c12_pub_never_blocks", "d_c12", "pub_never_blocks",
           "Distributor::{send_to_all, send_to_all_multipart} (the PUB fan-out, coroutine MIR) over two real connection objects (ScaConnectionIface for tcp/ipc sessions, DirectInprocConnection for inproc), one of them with a full queue of capacity 1 (a subscriber that stopped reading), either order of the two in the fan-out; the connections carry the send timeout that the crate's creation site for that kind of connection computes for a PUB socket and a symbolic SNDTIMEO option (-1, 0, any positive value up to i32::MAX ms): the site's MIR is sliced backwards from the timeout argument to the expression that computes it, which is then evaluated (executed when it is a crate function); one poll of the publish call",
           budget={"quick": 300, "thorough": 600},
@@ -305,9 +311,9 @@ PROPERTIES["C12"] = {
         "technique": "symbolic execution of SubscriptionTrie (MIR, z3) against a multiset-of-prefixes reference over all bounded histories",
         "text": "matches(t) holds iff some subscription with positive reference count is a byte-prefix of t (empty subscription matches everything), a topic subscribed N times stays active until unsubscribed N times, unsubscribing an inactive topic returns false and changes nothing - for every history within the bound, with topic and message bytes symbolic; the same holds when the history is issued as SUBSCRIBE / UNSUBSCRIBE options through SubSocket::set_pattern_option (the application's path).",
         "design_ref": "DESIGN.md §5 C12",
-        "note": "Also decided: a publish call completes at its first poll when a subscriber's queue is full and the other subscriber still gets the message - for every connection kind and the send timeout the crate gives a PUB socket's connections (known finding F27: with SNDTIMEO -1 or positive the publisher parks on the stalled subscriber). NOT claimed: delivery order / no duplicates on live sockets, concurrent matching while the subscription set changes, the filtered enqueue paths of PipeMessageSender (C09 covers their cancellation behaviour).",
+        "note": "Also decided: a publish call completes at its first poll when a subscriber's queue is full and the other subscriber still gets the message - for every connection kind and the send timeout the crate gives a PUB socket's connections (known finding F27: with SNDTIMEO -1 or positive the publisher parks on the stalled subscriber). Also decided: the subscriber-side filter in front of the receive queue (PipeMessageSender::FilteredAnonymous, single, awaited and batched paths) enqueues exactly the messages whose FIRST frame has an active subscription as prefix when they arrive, whole, in order, once, and leaves what does not fit in the caller's deque. NOT claimed: delivery order / no duplicates across live sockets, concurrent matching while the subscription set changes (the trie's per-node locks).",
     },
-    "outside": "live PUB/SUB sockets, concurrency, filtered enqueue paths, more than two subscribers",
+    "outside": "live PUB/SUB sockets, concurrency, more than two subscribers",
 }
 
 PROPERTIES["C13"] = {
